@@ -13,6 +13,11 @@ import Proofs.TracksV2Lens
 import Proofs.TracksV2Main
 import Proofs.TracksV2Db
 import Proofs.TracksV2Hist
+import Proofs.TracksV2Get
+import Proofs.TracksV2Wf
+import Proofs.TracksV2Proj
+import Proofs.TracksV2Gone
+import Proofs.TracksV2NormLink
 
 namespace EngineModel.Properties.C06V2
 open EngineModel EngineModel.TracksV2 EngineModel.Prim
@@ -232,6 +237,229 @@ theorem v2_C06_dbok_create (ops : FOps) (s : Schema) (db : Db) (hok : DbOk ops d
   | throw e => exact ⟨hok, hf⟩
   | ub u => exact ⟨hok, hf⟩
 
+
+/-! ### get ∘ set, frame and "value last set" on the Model's own setters and getters
+
+The statements above relate the Model to the lens Spec and state the lens laws
+on the Spec; here they are composed into statements about `applySetter` and the
+getters `get…` of the Model themselves (`getField` = the getter of each of the
+25 fields). -/
+
+/-- **get ∘ set and frame, on the Model.**  On a stored row with a readable
+snapshot, after a setter call the Model accepts: the getter of the named field
+answers the value set under C01's normalisation (`Spec.newValue`), and the
+getter of every other field (all 24) answers what it answered before. -/
+theorem v2_C06_model_get_set_frame (ops : FOps) (σ : Setter) (r r' : Row) (y : Snap)
+    (hr : readSnap ops r = .ok y) (henc : RowEnc r) (hs : applySetter ops σ r = .ok r') :
+    (∃ w, Spec.newValue σ y = some w ∧ getField ops r' (Spec.fieldOfSetter σ) = .ok w) ∧
+    ∀ g, g ≠ Spec.fieldOfSetter σ → getField ops r' g = getField ops r g := by
+  obtain ⟨y', h1, h2, _⟩ := spec_of_model_ok ops σ r r' y hr henc hs
+  refine ⟨⟨_, (v2_C06_get_set σ y y' h1).symm, getField_snapshot ops r' y' h2 _⟩, ?_⟩
+  intro g hg
+  rw [getField_snapshot ops r' y' h2, getField_snapshot ops r y hr, v2_C06_frame σ y y' h1 g hg]
+
+/-- **Per-slot frame.**  `set_hot_cue_at(i, v)`: `hot_cue_at(i)` answers the
+value set (offset −1 = empty slot), `hot_cue_at(j)` for every other index `j`
+(in or out of range) and every `loop_at(j)` answer what they answered before;
+symmetrically for `set_loop_at`. -/
+theorem v2_C06_model_slot_frame (ops : FOps) (i : UInt32) (r r' : Row) :
+    (∀ v, applySetter ops (.hotCueAt i v) r = .ok r' →
+      getHotCueAt r' i = .ok (Spec.normCue v) ∧ (∀ j : UInt32, j.toNat ≠ i.toNat → getHotCueAt r' j = getHotCueAt r j) ∧
+      ∀ j, getLoopAt r' j = getLoopAt r j) ∧
+    (∀ v, applySetter ops (.loopAt i v) r = .ok r' →
+      getLoopAt r' i = .ok v ∧ (∀ j : UInt32, j.toNat ≠ i.toNat → getLoopAt r' j = getLoopAt r j) ∧
+      ∀ j, getHotCueAt r' j = getHotCueAt r j) := by
+  constructor
+  · intro v h
+    obtain ⟨hk, hs, rfl⟩ := hotCueAt_row h
+    refine ⟨?_, fun j hj => getHotCueAt_set_other r i.toNat _ j hj, fun j => rfl⟩
+    unfold getHotCueAt
+    simp only [List.length_set, hs, Res.bind, List.getElem?_set_self hk, read_write_hotCue]
+  · intro v h
+    obtain ⟨hk, hs, rfl⟩ := loopAt_row h
+    refine ⟨?_, fun j hj => getLoopAt_set_other r i.toNat _ j hj, fun j => rfl⟩
+    unfold getLoopAt
+    simp only [List.length_set, hs, Res.bind, List.getElem?_set_self hk, read_write_loop]
+
+/-- **The derived getters** `filename()` / `file_extension()` change only with
+`set_relative_path`, and then are those of the new path (the one exception the
+property makes to the frame law). -/
+theorem v2_C06_model_derived (ops : FOps) (σ : Setter) (r r' : Row) (h : applySetter ops σ r = .ok r') :
+    (∀ p, σ = .relativePath p →
+      getFilename' r' = getFilename p ∧ getFileExtension' r' = (getFileExtension p).getD []) ∧
+    (σ.newPath = none → getFilename' r' = getFilename' r ∧ getFileExtension' r' = getFileExtension' r) := by
+  rcases applySetter_cols ops σ r r' h with ⟨p, rfl, h1, _, _⟩ | ⟨hn, h1, _, _⟩
+  · refine ⟨?_, fun hh => by cases hh⟩
+    intro p' hp
+    cases hp
+    unfold getFilename' getFileExtension'
+    rw [h1]
+    exact ⟨rfl, rfl⟩
+  · refine ⟨?_, fun _ => by unfold getFilename' getFileExtension'; rw [h1]; exact ⟨rfl, rfl⟩⟩
+    intro p hp
+    subst hp
+    cases hn
+
+/-- **Eight slots.**  Rows written by `create_track` / `update` have eight cue
+and eight loop slots, and every setter keeps that. -/
+theorem v2_C06_eight_slots (ops : FOps) :
+    (∀ s x r, writeStore ops s x = .ok r → r.cues.1.cues.length = 8 ∧ r.loops.1.length = 8) ∧
+    (∀ σ r r', applySetter ops σ r = .ok r' → r.cues.1.cues.length = 8 ∧ r.loops.1.length = 8 →
+      r'.cues.1.cues.length = 8 ∧ r'.loops.1.length = 8) :=
+  ⟨fun s x r h => slots8_written ops s x r h, fun σ r r' h h8 => slots8_set ops σ r r' h h8⟩
+
+/-- **After any history every getter of every track equals the field of its
+snapshot** (and `snapshot()` succeeds). -/
+theorem v2_C06_history_getters (ops : FOps) (db : Db) (hok : DbOk ops db) (h : List (Nat × Setter)) (id : Nat)
+    (r : Row) (hget : (db.run ops h).get id = some r) :
+    (db.run ops h).snapshot ops id = .ok (snapOf ops r) ∧
+    ∀ f, getField ops r f = .ok (Spec.fieldOf (snapOf ops r) f) := by
+  have hok' := (v2_C06_history ops db hok h).1
+  have hm := get_mem _ id r hget
+  have hread := (hok'.1 _ hm).2
+  exact ⟨by simp only [Db.snapshot, hget]; exact hread, getField_snapshot ops r _ hread⟩
+
+/-- **Each getter returns the value last set for its field.**  In a history
+`h₁ ++ [set f v on track id] ++ h₂` where that call is acceptable (the lens Spec
+accepts the value for the snapshot `y` the track has at that moment, and the
+path is not another track's) and no later call on the same track names the same
+field, the getter of `f` on track `id` at the end answers `v` under C01's
+normalisation (`Spec.newValue σ y`) — whatever else happened in `h₁`, `h₂`, on
+this and on other tracks, accepted or rejected. -/
+theorem v2_C06_value_last_set (ops : FOps) (db : Db) (hok : DbOk ops db) (h₁ h₂ : List (Nat × Setter)) (id : Nat)
+    (σ : Setter) (r₁ : Row) (y' : Snap)
+    (hget : (db.run ops h₁).get id = some r₁)
+    (hacc : Spec.applySetter σ (snapOf ops r₁) = some y')
+    (hnc : Spec.clashObs (obs ops (db.run ops h₁)) id σ = false)
+    (hlater : ∀ c ∈ h₂, c.1 = id → Spec.fieldOfSetter c.2 ≠ Spec.fieldOfSetter σ) :
+    ∃ r w, (db.run ops (h₁ ++ (id, σ) :: h₂)).get id = some r ∧
+      Spec.newValue σ (snapOf ops r₁) = some w ∧ getField ops r (Spec.fieldOfSetter σ) = .ok w := by
+  obtain ⟨hok1, hobs1⟩ := v2_C06_history ops db hok h₁
+  have hrun : db.run ops (h₁ ++ (id, σ) :: h₂) = ((db.run ops h₁).run ops [(id, σ)]).run ops h₂ := by
+    rw [show h₁ ++ (id, σ) :: h₂ = h₁ ++ ([(id, σ)] ++ h₂) from rfl, Db.run_append, Db.run_append]
+  obtain ⟨hokD, hobsD⟩ := v2_C06_history ops (db.run ops h₁) hok1 ((id, σ) :: h₂)
+  have hrun' : (db.run ops h₁).run ops ((id, σ) :: h₂) = db.run ops (h₁ ++ (id, σ) :: h₂) := by
+    rw [Db.run_append]
+  rw [hrun'] at hokD hobsD
+  -- the observations at the end, seen from track `id`
+  have hl1 : Spec.lookup (obs ops (db.run ops h₁)) id = some (snapOf ops r₁) := by
+    rw [lookup_obs, hget]; rfl
+  have hstep : Spec.lookup (Spec.stepObs (obs ops (db.run ops h₁)) id σ) id = some y' := by
+    rw [Spec.lookup_stepObs, hl1]
+    simp [hnc, hacc]
+  have hkept := Spec.field_kept_run (Spec.stepObs (obs ops (db.run ops h₁)) id σ) id (Spec.fieldOfSetter σ) h₂ hlater
+  rw [hstep] at hkept
+  have hfin : Spec.runObs (obs ops (db.run ops h₁)) ((id, σ) :: h₂) =
+      Spec.runObs (Spec.stepObs (obs ops (db.run ops h₁)) id σ) h₂ := rfl
+  rw [← hfin, ← hobsD, lookup_obs] at hkept
+  cases hg : (db.run ops (h₁ ++ (id, σ) :: h₂)).get id with
+  | none => rw [hg] at hkept; cases hkept
+  | some r =>
+    rw [hg] at hkept
+    simp only [Option.map_some, Option.some.injEq] at hkept
+    have hm := get_mem _ id r hg
+    have hread := (hokD.1 _ hm).2
+    refine ⟨r, _, rfl, (v2_C06_get_set σ _ y' hacc).symm, ?_⟩
+    rw [getField_snapshot ops r _ hread, hkept]
+
+
+/-- **The setters of this file are the statement sequences of the C++.**  `Db.set`
+(whole effect or nothing) is not an assumption: on every table satisfying the
+structural invariant of the statement-level model (ids and paths keys, origin
+columns set — every reachable one, C11V2Tracks), the SELECT / UPDATE statements
+of `set_*` in the order and transaction scope of `track_impl.cpp`, with
+`UNIQUE (path)` able to fail any of them, project exactly onto `Db.set`: same
+answer, same rows.  Hence every theorem above holds of the statement-level
+model, and a setter that throws has written nothing. -/
+theorem v2_C06_statement_level (ops : FOps) (id : Nat) (σ : Setter) (db : TDb) (hs : SInv db) :
+    (callSet ops id σ db).1.toDb = (db.toDb.set ops id σ).1 ∧ (callSet ops id σ db).2 = (db.toDb.set ops id σ).2 :=
+  callSet_toDb ops id σ hs
+
+
+/-! ### removed tracks, and the link to C01's normalisation -/
+
+/-- `track::update` keeps the table invariant (whatever its outcome). -/
+theorem v2_C06_dbok_update (ops : FOps) (s : Schema) (db : Db) (hok : DbOk ops db) (id : Nat) (x : Snap) :
+    DbOk ops (db.update ops s id x).1 := by
+  unfold Db.update
+  cases hw : writeStore ops s x with
+  | throw e => exact hok
+  | ub u => exact hok
+  | ok r =>
+    simp only []
+    split
+    · exact hok
+    · obtain ⟨henc, y, hy⟩ := v2_C06_written_rows ops s x r hw
+      constructor
+      · intro e he
+        unfold Db.put at he
+        simp only [List.mem_map] at he
+        obtain ⟨e0, he0, rfl⟩ := he
+        cases hid : (e0.1 == id) with
+        | false => simpa [hid] using hok.1 e0 he0
+        | true => simp only [hid, if_true]; exact ⟨henc, by rw [hy, snapOf_of_readSnap ops r y hy]⟩
+      · unfold Db.put
+        simp only [List.map_map]
+        have : (db.rows.map ((fun e : Nat × Row => e.1) ∘ fun e => if (e.1 == id) = true then (id, r) else e))
+            = db.rows.map (·.1) := by
+          apply List.map_congr_left
+          intro e he
+          simp only [Function.comp]
+          cases hid : (e.1 == id) with
+          | false => simp
+          | true => simp at hid; simp [hid]
+        rw [this]; exact hok.2
+
+/-- **A removed track stays removed, and every call on its handle is refused or
+a no-op.**  On the statement-level table: `remove_track` of an existing track
+returns normally and leaves no row for the id; from then on, through any
+history (ids are never reissued — AUTOINCREMENT), there is no row for it
+(`is_valid()` false, `snapshot()` `track_deleted`), every setter throws
+`track_row_id_error` without writing, `update` writes nothing, a second
+`remove_track` throws `invalid_argument`. -/
+theorem v2_C06_removed_track (ops : FOps) (s : Schema) (db : TDb) (hI : Inv db) (id : Nat) :
+    (∀ t, db.find id = some t → (callRemove id db).2 = .ok () ∧ Gone (callRemove id db).1 id) ∧
+    (Gone db id → ∀ hist : List TOp,
+      let db' := db.run ops s hist
+      db'.find id = none ∧
+      (∀ σ, callSet ops id σ db' = (db', .throw .runtime_error)) ∧
+      (∀ x, (callUpdate ops s id x db').1 = db') ∧
+      callRemove id db' = (db', .throw .invalid_argument)) := by
+  refine ⟨fun t hf => gone_of_remove hI hf, ?_⟩
+  intro hg hist db'
+  have hI' : Inv db' := inv_run ops s hist hI
+  have hg' : Gone db' id := gone_run ops s hist hI hg
+  refine ⟨hg'.1, fun σ => callSet_none ops σ hg'.1, ?_, ?_⟩
+  · intro x
+    unfold callUpdate
+    rw [M.lift_bind]
+    cases writeStore ops s x with
+    | throw e => rfl
+    | ub u => rfl
+    | ok r =>
+      simp only []
+      rw [M.bind_apply]
+      unfold M.stmt
+      simp only [updateStmt_none hg'.1]
+      rfl
+  · rw [callRemove_eq]
+    have : (db'.rows.filter fun e => e.id == id).length = 0 := by
+      rw [List.length_eq_zero_iff, List.filter_eq_nil_iff]
+      intro e he
+      simpa using find_none hg'.1 e he
+    simp [this]
+
+/-- **One normalisation.**  The value a setter must store (`Spec.newValue`, the
+oracle of this part) is the value `create_track` / `update` store for the same
+input (`Spec.normalize`, C01's oracle): if C01 accepts `x` and stores `y`, then
+for every field with a setter, setting it to `x`'s value must leave it holding
+`y`'s value (waveform: on a track with `x`'s sample count and rate). -/
+theorem v2_C06_norm_is_C01_norm (s : Schema) (x y : Snap) (h : Spec.normalize s x = some y) (f : Spec.Field)
+    (σ : Setter) (hσ : Spec.setterOf x f = some σ) (y0 : Snap)
+    (hw : f = .waveform → y0.sampleCount = x.sampleCount ∧ y0.sampleRate = x.sampleRate) :
+    Spec.newValue σ y0 = some (Spec.fieldOf y f) :=
+  Spec.newValue_eq_normalize s x y h f σ hσ y0 hw
+
 /-! ### non-vacuity -/
 
 def exOps : FOps := ⟨fun _ => 0, fun _ => 0, fun _ _ => 0⟩
@@ -256,5 +484,19 @@ example : ((exDb.run exOps exHist).snapshot exOps 1).toOption.map (·.duration) 
   decide +kernel
 example : ((exDb.run exOps exHist).snapshot exOps 1).toOption.map (·.waveform.length) = some 1024 := by
   decide +kernel
+
+/-- the hypotheses of `v2_C06_value_last_set` are satisfiable: track 1's rating is set to 250 (→ 100) in the
+middle of a history with a later title change on track 1 and rating changes on track 2 -/
+example : ∃ r, (exDb.run exOps ([(2, .rating (some 3))] ++ (1, .rating (some 250)) :: [(1, .title none), (2, .rating none)])).get 1
+    = some r ∧ getField exOps r .rating = .ok (.int (some 100)) := ⟨_, rfl, by decide +kernel⟩
+/-- … and of the per-slot frame: slot 3 of a created track accepts a cue, slot 8 does not exist -/
+example : ((exDb.get 1).bind fun r =>
+    (applySetter exOps (.hotCueAt 3 (some ⟨[65], 0x40f5888000000000, ⟨255, 1, 2, 3⟩⟩)) r).toOption).isSome = true := by
+  decide +kernel
+
+/-- removed tracks: the hypotheses are met by a real removal (track 2 of the example table of C11V2Tracks' shape) -/
+example : let db := ((TDb.empty [1]).run exOps .s2_21_0 [.create (exSnap 49), .create (exSnap 50)])
+    (db.find 2).isSome = true ∧ ((callRemove 2 db).1.find 2).isNone = true := by decide +kernel
+example : Spec.setterOf (exSnap 49) .rating = some (.rating none) ∧ Spec.setterOf (exSnap 49) .fileBytes = none := ⟨rfl, rfl⟩
 
 end EngineModel.Properties.C06V2
